@@ -531,7 +531,7 @@ func c10Cond(c *Ctx, r *Report) {
 						r.check("C10.COND", key, st.Pos(), okAll && cnt > 0, "a caller passes a parsed type as fragment condition without rejecting the undefined-type placeholder (*Ref)")
 						continue
 					}
-					r.check("C10.COND", key, st.Pos(), false, "a parsed type is stored as fragment type condition without rejecting the undefined-type placeholder (*Ref): a fragment on an undefined type is accepted and silently never applies")
+					r.flag("C10.COND", key, st.Pos(), "a parsed type is stored as fragment type condition without rejecting the undefined-type placeholder (*Ref): a fragment on an undefined type is accepted and silently never applies")
 				}
 			}
 		}
@@ -715,6 +715,7 @@ func dirUseArgLoop(c *Ctx, r *Report, rule string) {
 		r.check(rule, fnName(vdu)+": argument loop looks every argument up and coerces its value", vdu.Pos(), false, fmt.Sprintf("findArg call in loop found=%v, CoerceIn call in loop found=%v", find != nil, coerce != nil))
 		return
 	}
+	r.check(rule, fnName(vdu)+": argument loop looks every argument up and coerces its value", vdu.Pos(), true, "")
 	anyPol := map[*ssa.If]bool{} // branches both of whose outcomes lead to the call: polarity not demanded
 	inLoopGuards := func(ci ssa.CallInstruction) []guard {
 		l := innermostLoop(loops, ci.Block())
